@@ -117,6 +117,7 @@ func BaselineLines(pkgs []*packages.Package) map[string]string {
 // resolveRenames recomputes Renamed from the loaded packages.
 func resolveRenames(pkgs []*packages.Package) {
 	Renamed, oldToNew, renamedDisplay = map[string]string{}, map[string]string{}, map[string]string{}
+	renamedNatural = map[string]bool{}
 	if Baseline == nil || len(baselineInfo) == 0 {
 		return
 	}
@@ -171,6 +172,72 @@ func resolveRenames(pkgs []*packages.Package) {
 		renamedDisplay[nw.display] = baselineInfo[old].display
 		nlog("rename: %s is %s of the pinned tree", nw.key, old)
 	}
+	// second pass: the same bare name in the same package – a method that became a function (its unused receiver dropped)
+	// or a function that became a method, with the rest of the signature unchanged
+	bare := func(key string) string { return key[strings.LastIndex(key, ".")+1:] }
+	goneByName, freshByName := map[string][]string{}, map[string][]cand{}
+	freshSig := map[string]string{}
+	for g, ks := range gone {
+		for _, k := range ks {
+			if _, done := oldToNew[k]; !done {
+				n := g[:strings.Index(g, "|")] + "|" + bare(k)
+				goneByName[n] = append(goneByName[n], k)
+			}
+		}
+	}
+	for g, cs := range fresh {
+		for _, cd := range cs {
+			if _, done := Renamed[cd.key]; !done {
+				n := g[:strings.Index(g, "|")] + "|" + bare(cd.key)
+				freshByName[n] = append(freshByName[n], cd)
+				freshSig[cd.key] = g[strings.Index(g, "|")+1:]
+			}
+		}
+	}
+	for n, olds := range goneByName {
+		if len(olds) != 1 || len(freshByName[n]) != 1 {
+			continue
+		}
+		old, nw := olds[0], freshByName[n][0]
+		// signatures equal once the first (receiver) parameter of the longer one is dropped
+		a, b := baselineInfo[old].sig, freshSig[nw.key]
+		if dropFirstParam(a) != b && dropFirstParam(b) != a {
+			continue
+		}
+		Renamed[nw.key] = old
+		oldToNew[old] = nw.key
+		renamedDisplay[nw.display] = baselineInfo[old].display
+		renamedNatural[nw.key] = true
+		nlog("rename: %s is %s of the pinned tree (receiver dropped or added)", nw.key, old)
+	}
+}
+
+// renamedNatural: matched by name; the argument lists differ by the receiver, so call sites are read as they stand.
+var renamedNatural = map[string]bool{}
+
+func dropFirstParam(sig string) string {
+	if !strings.HasPrefix(sig, "(") {
+		return sig
+	}
+	i := strings.Index(sig, ") -> (")
+	if i < 0 {
+		return sig
+	}
+	params := sig[1:i]
+	depth := 0
+	for j, r := range params {
+		switch r {
+		case '(', '[', '{':
+			depth++
+		case ')', ']', '}':
+			depth--
+		case ',':
+			if depth == 0 {
+				return "(" + strings.TrimSpace(params[j+1:]) + sig[i:]
+			}
+		}
+	}
+	return "(" + sig[i:]
 }
 
 // renamedFunc looks a vanished baseline function up under its new name.
@@ -189,4 +256,236 @@ func (p *Prog) renamedFunc(pkg, name string) *ssa.Function {
 	oldToNew = nil // no second indirection
 	defer func() { oldToNew = oldToNewGuard }()
 	return p.Func(pkg, rest)
+}
+
+// RenamedHadRecv: fn is a function of the pinned tree under a new name; had tells whether the pinned declaration had a
+// receiver (rules that count arguments past the receiver keep counting the way the pinned signature did).
+func RenamedHadRecv(fn *ssa.Function) (had, renamed bool) {
+	if fn == nil || fn.Pkg == nil || len(Renamed) == 0 {
+		return false, false
+	}
+	key := fn.Pkg.Pkg.Path() + "."
+	if recv := fn.Signature.Recv(); recv != nil {
+		t := recv.Type()
+		if pt, ok := t.(*types.Pointer); ok {
+			t = pt.Elem()
+		}
+		if nt, ok := t.(*types.Named); ok {
+			key += nt.Obj().Name() + "."
+		}
+	}
+	old, ok := Renamed[key+fn.Name()]
+	if !ok || renamedNatural[key+fn.Name()] {
+		return false, false
+	}
+	return strings.HasPrefix(baselineInfo[old].display, "("), true
+}
+
+func isRenamed(fn *ssa.Function) bool {
+	if fn == nil || fn.Pkg == nil || len(Renamed) == 0 {
+		return false
+	}
+	key := fn.Pkg.Pkg.Path() + "."
+	if recv := fn.Signature.Recv(); recv != nil {
+		t := recv.Type()
+		if pt, ok := t.(*types.Pointer); ok {
+			t = pt.Elem()
+		}
+		if nt, ok := t.(*types.Named); ok {
+			key += nt.Obj().Name() + "."
+		}
+	}
+	_, ok := Renamed[key+fn.Name()]
+	return ok
+}
+
+// BaseName is fn.Name(), or the name the function had on the pinned tree when it was renamed.
+func BaseName(fn *ssa.Function) string {
+	if fn == nil {
+		return ""
+	}
+	if isRenamed(fn) {
+		d := FnName(fn)
+		return d[strings.LastIndex(d, ".")+1:]
+	}
+	return fn.Name()
+}
+
+// ---- struct fields ------------------------------------------------------------------------------------------------
+//
+// The same for the fields of the module's struct types: baseline_funcs.txt lists "field\t<pkgpath>.<Type>.<name>\t<type>";
+// a field the rules ask for that is gone is found again when exactly one field of the struct is new and exactly one pinned
+// field of that struct with the same type is missing.
+
+var baselineFields = map[string]map[string]string{} // "<pkgpath>.<Type>" -> field -> type string
+
+// BaselineFieldLines lists the field lines for -genbaseline.
+func BaselineFieldLines(pkgs []*packages.Package) []string {
+	var out []string
+	packages.Visit(pkgs, nil, func(p *packages.Package) {
+		if !strings.HasPrefix(p.PkgPath, ModPath) || p.Types == nil {
+			return
+		}
+		sc := p.Types.Scope()
+		for _, name := range sc.Names() {
+			tn, ok := sc.Lookup(name).(*types.TypeName)
+			if !ok {
+				continue
+			}
+			st, ok := tn.Type().Underlying().(*types.Struct)
+			if !ok {
+				continue
+			}
+			for i := 0; i < st.NumFields(); i++ {
+				f := st.Field(i)
+				out = append(out, "field\t"+p.PkgPath+"."+name+"."+f.Name()+"\t"+types.TypeString(f.Type(), func(q *types.Package) string { return q.Path() }))
+			}
+		}
+	})
+	sort.Strings(out)
+	return out
+}
+
+// BaseFieldName: the name the field had on the pinned tree (its own name unless it was renamed).
+func BaseFieldName(owner *types.Named, f *types.Var) string {
+	if owner == nil || owner.Obj().Pkg() == nil {
+		return f.Name()
+	}
+	if old := fieldRenames(owner)[f.Name()]; old != "" {
+		return old
+	}
+	return f.Name()
+}
+
+var fieldRenameCache = map[*types.Named]map[string]string{}
+
+// fieldRenames: new field name -> pinned field name for the struct type.
+func fieldRenames(owner *types.Named) map[string]string {
+	if m, ok := fieldRenameCache[owner]; ok {
+		return m
+	}
+	m := map[string]string{}
+	fieldRenameCache[owner] = m
+	base := baselineFields[owner.Obj().Pkg().Path()+"."+owner.Obj().Name()]
+	st, ok := owner.Underlying().(*types.Struct)
+	if base == nil || !ok {
+		return m
+	}
+	q := func(p *types.Package) string { return p.Path() }
+	cur := map[string]string{}
+	for i := 0; i < st.NumFields(); i++ {
+		cur[st.Field(i).Name()] = types.TypeString(st.Field(i).Type(), q)
+	}
+	gone := map[string][]string{} // type -> pinned fields that are missing
+	for name, t := range base {
+		if _, ok := cur[name]; !ok {
+			gone[t] = append(gone[t], name)
+		}
+	}
+	fresh := map[string][]string{}
+	for name, t := range cur {
+		if _, ok := base[name]; !ok {
+			fresh[t] = append(fresh[t], name)
+		}
+	}
+	for t, g := range gone {
+		if len(g) == 1 && len(fresh[t]) == 1 {
+			m[fresh[t][0]] = g[0]
+			nlog("rename: field %s.%s is %s of the pinned tree", owner.Obj().Name(), fresh[t][0], g[0])
+		}
+	}
+	return m
+}
+
+var fieldBase = map[*types.Var]string{}
+
+// indexFieldRenames records, for every field of the module's struct types that was renamed since the pinned tree, the
+// pinned name (FName).
+func indexFieldRenames(pkgs []*packages.Package) {
+	fieldBase = map[*types.Var]string{}
+	if len(baselineFields) == 0 {
+		return
+	}
+	packages.Visit(pkgs, nil, func(p *packages.Package) {
+		if !strings.HasPrefix(p.PkgPath, ModPath) || p.Types == nil {
+			return
+		}
+		sc := p.Types.Scope()
+		for _, name := range sc.Names() {
+			tn, ok := sc.Lookup(name).(*types.TypeName)
+			if !ok {
+				continue
+			}
+			nt, ok := tn.Type().(*types.Named)
+			if !ok {
+				continue
+			}
+			st, ok := nt.Underlying().(*types.Struct)
+			if !ok {
+				continue
+			}
+			ren := fieldRenames(nt)
+			if len(ren) == 0 {
+				continue
+			}
+			for i := 0; i < st.NumFields(); i++ {
+				if old := ren[st.Field(i).Name()]; old != "" {
+					fieldBase[st.Field(i)] = old
+				}
+			}
+		}
+	})
+}
+
+// FName is the field's name on the pinned tree.
+func FName(f *types.Var) string {
+	if f == nil {
+		return ""
+	}
+	if old, ok := fieldBase[f]; ok {
+		return old
+	}
+	return f.Name()
+}
+
+// renamedStruct: the pinned struct type pkg.name is gone; the one struct type of the package that the pinned tree does not
+// know and that has exactly the pinned type's fields (names and types, the type's own name aside) is that type renamed.
+func renamedStruct(tp *types.Package, name string) *types.Named {
+	base := baselineFields[tp.Path()+"."+name]
+	if base == nil {
+		return nil
+	}
+	q := func(p *types.Package) string { return p.Path() }
+	var found *types.Named
+	for _, cand := range tp.Scope().Names() {
+		if baselineFields[tp.Path()+"."+cand] != nil {
+			continue
+		}
+		tn, ok := tp.Scope().Lookup(cand).(*types.TypeName)
+		if !ok {
+			continue
+		}
+		nt, ok := tn.Type().(*types.Named)
+		if !ok {
+			continue
+		}
+		st, ok := nt.Underlying().(*types.Struct)
+		if !ok || st.NumFields() != len(base) {
+			continue
+		}
+		same := true
+		for i := 0; i < st.NumFields(); i++ {
+			t := strings.ReplaceAll(types.TypeString(st.Field(i).Type(), q), tp.Path()+"."+cand, tp.Path()+"."+name)
+			if bt, ok := base[st.Field(i).Name()]; !ok || bt != t {
+				same = false
+			}
+		}
+		if same {
+			if found != nil {
+				return nil
+			}
+			found = nt
+		}
+	}
+	return found
 }
